@@ -18,7 +18,7 @@ PROPERTY = "C04"
 FAMILY = "load"
 LEAN_MODULE = "ElfioVerif.Props.C04"
 THEOREMS = ["ElfioVerif.C04.layoutLoose_disjoint", "ElfioVerif.C04.layoutLoose_aligned",
-            "ElfioVerif.C04.wsd_monotone", "ElfioVerif.C04.layout_disjoint",
+            "ElfioVerif.C04.wsd_monotone", "ElfioVerif.C04.layout_disjoint", "ElfioVerif.C04.layout_aligned",
             "ElfioVerif.C04.member_equidistant", "ElfioVerif.C04.member_inside",
             "ElfioVerif.C04.segment_congruent", "ElfioVerif.C04.memsz_ge_filesz",
             "ElfioVerif.C04.memsz_covers", "ElfioVerif.C04.memsz_witness"]
